@@ -30,24 +30,26 @@ ASSUMPTIONS = [
     'generated inputs have fewer than 16 significant digits',
     'model_lex takes arbitrary chunk lists; the .p8 / .p8.png readers only produce chunks ending after a line feed',
 ]
-PARTIAL = ('C07_step_agrees / C07_lex_agrees (model step = reference step on the whole defined domain) are not proved '
-           'in general: the development proves the symbol case (C07_symbols_longest + C07_symbols_same_set: first match in '
-           'table order = longest match over the reference symbol set), position correctness for every successful lex '
-           '(C07_positions), coverage (C07_cover), numeric values (C07_number_value_partial, with the failing forms as '
-           'C07_number_value_refuted) and keyword-order independence; agreement of kinds/extents for the remaining token '
-           'classes and C07_chunking rest on the correspondence + monitor runs only.')
+PARTIAL = ('C07_chunking (tokenisation independent of splitting at line ends) is not proved in Coq: it is validated by '
+           'the correspondence (every source lexed as one chunk, as per-line chunks and at random split points by both '
+           'implementation and model) and by the monitor holds_C07_chunking on the implementation. C07_lex_agrees is '
+           'proved for the single-chunk path; C07_cover / C07_positions hold for any chunking. Sources the reference '
+           'grammar leaves undefined (see Spec/LuaLex.v header: lone CR, --[==[ comments, \\z and unknown escapes, 1e+5, '
+           'malformed numerals, later compound operators) are outside every claim.')
 CLAIM = dict(
     text=("Theorems (Coq, closed under the global context) about an executable model of Lexer._process_token/"
-          "_process_line/process_lines whose ordered matcher table, symbol literals, keyword set and escape tables are "
-          "regenerated from lexer.py on every run: C07_symbols_longest (first match in the regenerated table order = "
-          "longest match, for every input, via prefix_ordered recomputed by vm_compute) and C07_symbols_same_set "
-          "(= longest match over the reference symbol set), C07_positions (every token's line/column is the position "
-          "computed from the concatenated extents of the preceding tokens, any chunking), C07_cover (extents concatenate "
-          "to the input), C07_number_value_partial / _refuted, C07_keyword_order_irrelevant, C07_token_count. Partial: "
-          "full step-by-step agreement with the reference grammar and chunking independence are validated by "
-          "correspondence (implementation vs extracted model, field by field) and by the extracted monitor holds_C07 "
-          "comparing the implementation's tokens with the reference lexer Spec/LuaLex.v on ~40k sources per quick run; "
-          "known deviations are listed as findings."),
+          "_process_line/process_lines, Token.code, TokString.value, TokNumber.value whose ordered matcher table, symbol "
+          "literals, keyword list and escape tables are regenerated from lexer.py on every run: C07_lex_agrees - for EVERY "
+          "byte string given as one chunk, if the reference grammar Spec/LuaLex.v (Lua 5.2 section 3.1 + PICO-8 extensions) "
+          "is defined on it, the model lexes it and its token list passes holds_C07, the same predicate the extracted "
+          "monitor applies to the implementation (same boundaries, class, decoded string bytes, exact numeric value, "
+          "quote / bracket level, line, column); C07_step_agrees (one token, every first-byte class); "
+          "C07_symbols_longest (first match in regenerated table order = longest match) and C07_symbols_same_set; "
+          "C07_number_value (exact, all numeral forms incl. 0XA / 0x.8); C07_cover and C07_positions for any chunking, "
+          "C07_positions_lua. Tie: extracted model vs implementation field by field (token lists, code, value, string "
+          "value, token count; each matcher scanner vs re.match of the running pattern) and the extracted monitor on the "
+          "implementation's tokens, ~110k evaluations per quick run. Six lexer defects found by this check were fixed "
+          "(findings/known_C07.json). Partial: C07_chunking is validated by correspondence + monitor only."),
     note=("Trusted: Coq kernel+VM, table dump gen/kernels_lexer.py (import-based; symbol patterns checked to be pure "
           "literals with re._parser; other patterns pinned by source text), hand-written scanners for the pinned regex "
           "sources (each compared with re.match on the running pattern), ExtrOcamlBasic extraction, OCaml glue, the "
